@@ -1,6 +1,9 @@
 package runtime
 
-import "fmt"
+import (
+	"fmt"
+	"math"
+)
 
 // RawEqual returns two values.  The second one is true if raw equality makes
 // sense for x and y.  The first one returns whether x and y are raw equal.
@@ -137,36 +140,65 @@ func Lt(t *Thread, x, y Value) (bool, error) {
 	return false, compareError(x, y)
 }
 
+// The four functions below compare an integer and a float exactly, i.e. as
+// the mathematical values they denote (converting the integer to a float would
+// round it when it is bigger than 2^53).  A float that is not below 2^63 is
+// bigger than every integer, one that is below -2^63 is smaller than every
+// integer, and in between its floor and ceiling are integers.
+
+const (
+	minIntAsFloat   = -0x1p63 // math.MinInt64, which a float64 represents exactly
+	firstFloatAbove = 0x1p63  // math.MaxInt64 + 1, the first float above every integer
+)
+
 func ltIntAndFloat(n int64, f float64) bool {
-	nf := int64(f)
-	if float64(nf) == f {
-		return n < nf
+	switch {
+	case f >= firstFloatAbove:
+		return true
+	case f >= minIntAsFloat:
+		// n < f <=> n < ceil(f)
+		return n < int64(math.Ceil(f))
+	default:
+		// f is below every integer, or NaN
+		return false
 	}
-	return float64(n) < f
 }
 
 func ltFloatAndInt(f float64, n int64) bool {
-	nf := int64(f)
-	if float64(nf) == f {
-		return nf < n
+	switch {
+	case f >= firstFloatAbove:
+		return false
+	case f >= minIntAsFloat:
+		// f < n <=> floor(f) < n
+		return int64(math.Floor(f)) < n
+	default:
+		// f is below every integer (true), or NaN (false)
+		return f < minIntAsFloat
 	}
-	return f < float64(n)
 }
 
 func leIntAndFloat(n int64, f float64) bool {
-	nf := int64(f)
-	if float64(nf) == f {
-		return n <= nf
+	switch {
+	case f >= firstFloatAbove:
+		return true
+	case f >= minIntAsFloat:
+		// n <= f <=> n <= floor(f)
+		return n <= int64(math.Floor(f))
+	default:
+		return false
 	}
-	return float64(n) <= f
 }
 
 func leFloatAndInt(f float64, n int64) bool {
-	nf := int64(f)
-	if float64(nf) == f {
-		return nf <= n
+	switch {
+	case f >= firstFloatAbove:
+		return false
+	case f >= minIntAsFloat:
+		// f <= n <=> ceil(f) <= n
+		return int64(math.Ceil(f)) <= n
+	default:
+		return f < minIntAsFloat
 	}
-	return f <= float64(n)
 }
 
 func le(t *Thread, x, y Value) (bool, error) {
